@@ -188,6 +188,13 @@ def generate(UNARY, UNARY_OP, BIN_EXACT, BIN_REWRITE, F1, F2):
         tags.append('pub assume_specification [f32::%s] (x: f32) -> (r: f32) ensures r == fun1(T_%s(), x);' % (f, f))
     for f in F2:
         tags.append('pub assume_specification [f32::%s] (x: f32, y: f32) -> (r: f32) ensures r == fun2(T_%s(), x, y);' % (f, f))
+    # further f32 library methods an edited eval function might call: declared (uninterpreted) so that such an edit is decided
+    for i, f in enumerate(['trunc', 'fract', 'signum', 'round_ties_even', 'sinh', 'cosh', 'tanh', 'exp2', 'log2', 'log10', 'cbrt', 'recip']):
+        tags.append('pub open spec fn T_%s() -> int { %d }' % (f, 100 + i))
+        tags.append('pub assume_specification [f32::%s] (x: f32) -> (r: f32) ensures r == fun1(T_%s(), x);' % (f, f))
+    for i, f in enumerate(['copysign', 'min', 'max', 'powf', 'hypot', 'div_euclid']):
+        tags.append('pub open spec fn T_%s() -> int { %d }' % (f, 200 + i))
+        tags.append('pub assume_specification [f32::%s] (x: f32, y: f32) -> (r: f32) ensures r == fun2(T_%s(), x, y);' % (f, f))
     prelude = PRELUDE.replace('/*@TAGS@*/', '\n'.join(tags))
     specs = {}
     proofs = []
